@@ -58,10 +58,10 @@ def case_split_sync(ctx, m):
             ctx.oblige("line_k_is_bit_k", core.eq(v, bit), detail={"i": i, "k": k})
 
 
-def case_read_sync_file(ctx, xa):
+def case_read_sync_file(ctx, xa, floor=True):
     """Reader.read_sync on a nidq file: 16 digital lines then the analog lines, floor (10th percentile PER LINE) removed and thresholded"""
     from checks import c01
-    c01.case_read_sync(ctx, xa)
+    c01.case_read_sync(ctx, xa, floor=floor)
 
 
 def _edges_oracle(ctx, x, n, step, name, got_idx, got_sign=None, polarity=None):
@@ -155,6 +155,7 @@ def cases(tier):
             cs.append(Case(f"fronts_2d_{r}x{c}_axis{ax}", "case_fronts_2d", {"rows": r, "cols": c, "axis": ax}))
     for xa in (1, 2):
         cs.append(Case(f"read_sync_file_xa{xa}", "case_read_sync_file", {"xa": xa}))
+    cs.append(Case("read_sync_file_xa1_floor_off", "case_read_sync_file", {"xa": 1, "floor": False}))
     return cs
 
 
@@ -242,3 +243,4 @@ not_reproduced()
 
 # level text addendum (cases added after the seeded-change rounds)
 LEVEL_TEXT = LEVEL_TEXT + ' Also: Reader.read_sync on a nidq file (digital bits + per-line floor removal of the analog lines), twice on one reader.'
+LEVEL_TEXT = LEVEL_TEXT + ' Round 6: casts of integers to 8-bit types wrap in the engine (front polarities beyond +-127 must survive), read_sync with the floor removal switched off.'
